@@ -108,6 +108,37 @@ pub fn run(path: &str) -> i32 {
             }
             return 0;
         }
+        "optimise-sequence" => {
+            let seq: Vec<u8> = j.get("switch_sequence").and_then(|c| c.as_array()).map(|a| a.iter().filter_map(|x| x.as_u64()).map(|x| x as u8).collect()).unwrap_or_default();
+            let docs: Vec<MObj> = j.get("documents").and_then(|d| d.as_array()).map(|a| a.iter().filter_map(mobj_from_json).collect()).unwrap_or_default();
+            if let Some(y) = rule_yaml {
+                println!("--- rule ---\n{}", y);
+                if let Ok(r) = eng::load(y) {
+                    let show = |r: &Rule, sw: u8| match eng::optimise_with(r, sw, &[]) {
+                        Ok((o, _)) => format!("{} verdicts {:?}", eng::canon(&o), docs.iter().map(|d| eng::matches(&o, d)).collect::<Vec<_>>()),
+                        Err(p) => format!("PANIC {}", p),
+                    };
+                    for sw in &seq {
+                        println!("optimise({}) in sequence: {}", eng::sw_name(*sw), show(&r, *sw));
+                    }
+                    if let Some(last) = seq.last() {
+                        let (y2, l2) = (y.to_string(), *last);
+                        let docs2 = docs.clone();
+                        let alone = std::thread::spawn(move || {
+                            eng::load(&y2).ok().map(|r| match eng::optimise_with(&r, l2, &[]) {
+                                Ok((o, _)) => format!("{} verdicts {:?}", eng::canon(&o), docs2.iter().map(|d| eng::matches(&o, d)).collect::<Vec<_>>()),
+                                Err(p) => format!("PANIC {}", p),
+                            })
+                        })
+                        .join()
+                        .ok()
+                        .flatten();
+                        println!("optimise({}) alone on a fresh thread: {}", eng::sw_name(*last), alone.unwrap_or_default());
+                    }
+                }
+            }
+            return 0;
+        }
         "api-history" => {
             let ops: Vec<u8> = j.get("ops").and_then(|c| c.as_array()).map(|a| a.iter().filter_map(|x| x.as_u64()).map(|x| x as u8).collect()).unwrap_or_default();
             let docs: Vec<MObj> = j.get("documents").and_then(|d| d.as_array()).map(|a| a.iter().filter_map(mobj_from_json).collect()).unwrap_or_default();
